@@ -32,6 +32,16 @@ CLAIMED = {
               "slice start/stop values outside the menu, boolean/None indices and >1 list index are outside; quick tier "
               "pins some axes' entries by VERIF_SEED for 4-D/5-D"),
         design_ref="DESIGN.md §5 C03"),
+    "C06": dict(
+        engine="S",
+        technique="term-valued symbolic execution of the real Dataset.bin/fourier_resample/pad/crop NumPy code (explicit DFT model), identities decided by z3 over all array contents and calibrations; replay on real NumPy",
+        text=("bounded model checking by symbolic execution: the repository's functions run unchanged on arrays whose "
+              "elements are z3 real terms; block-sum/mean, sampling/origin updates, count/mean/centre/extent conservation, "
+              "linearity, identity, up-then-down identity (under the no-Nyquist precondition) and pad-then-crop identity are "
+              "each asked as 'exists input violating it?' and come back unsat for every enumerated shape/factor"),
+        note=("real arithmetic instead of floating point; DFT lengths 1, 2, 4 exact, other lengths with float64 twiddles "
+              "taken as exact rationals and a 1e-9 tolerance; the NumPy model is validated against real NumPy on every run"),
+        design_ref="DESIGN.md §5 C06"),
     "C08": dict(
         engine="X",
         technique="CrossHair symbolic execution of the real save()/load() on an in-memory file system with a symbolic fault index; post-state assertion; replay with mock-injected faults on the real file system",
